@@ -18,7 +18,7 @@ def run(ctx):
     # failures of a goroutine-backed stream (parallel.MapStream over a failing source / failing f): C14's scenario family
     okc, outc, exec_ = vlib.build_runner(module="harness_parmap", exe_name="runner-parmap")
     if okc:
-        vlib.seq_differential(ctx, MapStreamSpec(), exec_, proofs_ok, tag="mapstream", scale=0.4)
+        vlib.seq_differential(ctx, MapStreamSpec(), exec_, proofs_ok, tag="mapstream", scale=0.3)
     else:
         ctx.violation("harness-build", "the harness does not build against the current tree: " + outc[-1500:], {"build_output": outc[-4000:]}, failing_input=False)
     vlib.merge_parts(ctx, "cases = random stream pipelines over scripted sources with transient and fatal errors at every position, failing callbacks (k-th call), "
